@@ -13,6 +13,8 @@ R10.4 every block implementation (the four stitched assembly functions and the s
       MurmurHash3_x64_128's block constants c1, c2, 0x52dce729, 0x38495ab5; the unit with the tail / finalisation
       carries the two fmix64 multipliers; the stitched SHA-1 halves carry the standard SHA-1 round constants and
       the init unit the standard SHA-1 initial hash value.
+R10.5 every store of the bit length into a padding buffer that the C source of this directory asks for survives in
+      the object built with the real flags (see C05 R05.4).
 """
 import re
 
@@ -116,6 +118,8 @@ def run(chk):
     nu = mhrules.total_length_rule(chk, "R10.2", {k: v for k, v in mods.items() if k.startswith(DIR + "/")}, r"^_mh_sha1_murmur3_x64_128_update_\w+$")
     chk.floor("update functions", nu, 5)
     seed_rule(chk, {k: v for k, v in mods.items() if k.startswith(DIR + "/")})
+    ns = mhrules.length_store_survives(chk, "R10.5", lib, {k: v for k, v in mods.items() if k.startswith(DIR + "/")})
+    chk.extra["bit_length_stores_checked"] = ns
     # R10.4 constants
     M3 = stdconst.MURMUR3_X64_128
     nblock = 0
